@@ -425,6 +425,8 @@ static void scenario(int cfg)
         if (*s == 's')
             resumes_left++;
 
+    for (int i = 0; i < (int)(sizeof(pool) / sizeof(pool[0])); i++)
+        h_watch_pool(pool[i]);
     abtmc_window_begin();
     if (C->unit == UK_TASK) {
         OK(ABT_task_create(pool[PA], u_fn, NULL, &U));
